@@ -135,23 +135,41 @@ def rw_split_channel(rng, spec, obs, poi):
 def rw_split_sample(rng, spec, obs, poi):
     """The inverse of merging two samples that carry identical modifiers."""
     s = copy.deepcopy(spec)
-    cands = [(c, smp) for c in s["channels"] for smp in c["samples"] if all(m["type"] in ("normfactor", "normsys", "lumi", "histosys") for m in smp["modifiers"])]
+    cands = [(c, smp) for c in s["channels"] for smp in c["samples"] if all(m["type"] in ("normfactor", "normsys", "lumi", "histosys", "staterror") for m in smp["modifiers"])]
+    # a staterror name used in several channels must be declared by the same samples in each (pyhf refuses anything
+    # else), so a sample carrying one is only split when that name lives in this channel alone
+    def stat_local(c, smp):
+        names = {m["name"] for m in smp["modifiers"] if m["type"] == "staterror"}
+        return not any(m["type"] == "staterror" and m["name"] in names for c2 in s["channels"] if c2 is not c for s2 in c2["samples"] for m in s2["modifiers"])
+    cands = [(c, smp) for c, smp in cands if stat_local(c, smp)]
     if not cands:
         return None
-    c, smp = rng.choice(cands)
+    with_stat = [(c, smp) for c, smp in cands if any(m["type"] == "staterror" for m in smp["modifiers"])]
+    c, smp = rng.choice(with_stat if with_stat and rng.random() < 0.7 else cands)
     f = rng.choice([0.25, 0.5, 0.375])
+    nb = len(smp["data"])
+    has_stat = any(m["type"] == "staterror" for m in smp["modifiers"])
+    # per-bin yield fractions of the first part; with a staterror one bin of the first part may be left with zero
+    # yield but a non-zero MC uncertainty (negative-weight samples do that): the quadrature sum must still count it
+    fr = [f] * nb
+    if has_stat and rng.random() < 0.6:
+        fr[rng.randrange(nb)] = 0.0
     parts = []
-    for tag, frac in (("_m1", f), ("_m2", 1 - f)):
+    for tag, first in (("_m1", True), ("_m2", False)):
+        frac = [x if first else 1 - x for x in fr]
         mods = []
         for m in smp["modifiers"]:
             m2 = copy.deepcopy(m)
             if m["type"] == "histosys":
-                m2["data"] = {"hi_data": [v * frac for v in m["data"]["hi_data"]], "lo_data": [v * frac for v in m["data"]["lo_data"]]}
+                m2["data"] = {"hi_data": [v * q for v, q in zip(m["data"]["hi_data"], frac)], "lo_data": [v * q for v, q in zip(m["data"]["lo_data"], frac)]}
+            if m["type"] == "staterror":
+                # absolute MC uncertainties add in quadrature: u1 = u sqrt(f), u2 = u sqrt(1-f)
+                m2["data"] = [u * math.sqrt(f if first else 1 - f) for u in m["data"]]
             mods.append(m2)
-        parts.append({"name": smp["name"] + tag, "data": [v * frac for v in smp["data"]], "modifiers": mods})
+        parts.append({"name": smp["name"] + tag, "data": [v * q for v, q in zip(smp["data"], frac)], "modifiers": mods})
     i = c["samples"].index(smp)
     c["samples"][i:i + 1] = parts
-    return s, dict(obs), poi, {"kind": "split-sample(merge inverse)"}
+    return s, dict(obs), poi, {"kind": "split-sample(merge inverse)" + (", one part with zero yield under staterror" if 0.0 in fr else (", staterror in quadrature" if has_stat else ""))}
 
 
 def rw_scale_signal(rng, spec, obs, poi):
